@@ -35,7 +35,7 @@ var resetSpecs = []resetSpec{
 	{pkg: Root + "/xfer", typ: "XferPipe", fn: "Reset", want: map[string]string{"filters": "slice0"}},
 	{pkg: Root + "/utils", typ: "ByteBuffer", fn: "Reset", want: map[string]string{"B": "slice0"}},
 	{pkg: Root + "/socket", typ: "socket", fn: "Reset",
-		exempt: map[string]string{"idMutex": "mutex", "swapMutex": "mutex", "mu": "mutex", "fromPool": "pool membership flag, constant for the object's life"},
+		exempt:    map[string]string{"idMutex": "mutex", "swapMutex": "mutex", "mu": "mutex", "fromPool": "pool membership flag, constant for the object's life"},
 		viaMethod: map[string][3]string{"readerWithBuffer": {"bufio", "Reader", "Reset"}},
 		viaSelf:   map[string]string{"id": "SetID"},
 		want:      map[string]string{"Conn": "any", "protocol": "any", "curState": "any"}},
@@ -210,10 +210,10 @@ func pkgShort(path string) string {
 
 // poolSpec: a sync.Pool location and the reset that must guard it.
 type poolSpec struct {
-	name               string
-	globalPkg, global  string    // package-level pool variable, or
-	fieldPkg, fieldTyp, field string // struct field holding the pool
-	reset              [3]string // pkg, type, method
+	name                      string
+	globalPkg, global         string    // package-level pool variable, or
+	fieldPkg, fieldTyp, field string    // struct field holding the pool
+	reset                     [3]string // pkg, type, method
 }
 
 var poolSpecs = []poolSpec{
